@@ -1010,6 +1010,27 @@ func runHistoryHere(c *histCase) *histOut {
 		switch f[0] {
 		case "edit":
 			os.WriteFile(filepath.Join(pd, "edit.go"), []byte(fmt.Sprintf("package %s\n\nconst edited = %d\n", s.Pkgs[pi].Dir, counter)), 0o644)
+		case "inplace":
+			// an edit that keeps the file's name, length and modification time (cp -p, rsync -t --inplace, tar -x, a file
+			// system with coarse timestamps): one digit of edit.go changes; the directory has changed like after any edit
+			name := filepath.Join(pd, "edit.go")
+			st, err := os.Stat(name)
+			b, _ := os.ReadFile(name)
+			done := false
+			if err == nil {
+				for q := len(b) - 1; q >= 0; q-- {
+					if b[q] >= '0' && b[q] <= '9' {
+						b[q] = '0' + (b[q]-'0'+1)%10
+						os.WriteFile(name, b, 0o644)
+						os.Chtimes(name, st.ModTime(), st.ModTime())
+						done = true
+						break
+					}
+				}
+			}
+			if !done {
+				os.WriteFile(name, []byte(fmt.Sprintf("package %s\n\nconst edited = %d\n", s.Pkgs[pi].Dir, counter)), 0o644)
+			}
 		case "typeerr":
 			// an edit that leaves the package with a type error of its own (an undefined name): it still loads, its
 			// declarations are still there, its directory has changed
@@ -1285,7 +1306,9 @@ func genHistory(r *Rng) *histCase {
 	n := 4 + r.Intn(7)
 	for i := 0; i < n; i++ {
 		p := r.Intn(k)
-		switch r.Intn(19) {
+		switch r.Intn(21) {
+		case 19, 20:
+			c.Ops = append(c.Ops, fmt.Sprintf("inplace:%d", p))
 		case 14, 15:
 			c.Ops = append(c.Ops, fmt.Sprintf("link:%d", p))
 		case 16:
